@@ -37,8 +37,14 @@ def density_ready(sg):
 
 def cl_requires(v):
     sg = v.self.subgraph
+    # NB: the conquest order list is never reset by the k-NN models: every clustering APPENDS its n removals
     return [("n", ge(length(sg.nodes), 1)), ("adj_valid", adj_valid(sg)), ("density_ready", density_ready(sg)),
-            ("ord_empty", eq(length(sg.idx_nodes), 0))]
+            ("ord_len", ge(length(sg.idx_nodes), 0))]
+
+
+def ord_same(v, old):
+    from pyvc.logic import same_list
+    return ("ord_same", same_list(v.self.subgraph.idx_nodes, old.self.subgraph.idx_nodes))
 
 
 def cl_static(v, old, unsup=False):
@@ -63,7 +69,8 @@ def forest_inv(v, old, unsup=False):
     N = sg.nodes
     D, col = h.cost, h.color
     ordl = sg.idx_nodes
-    mlen = length(ordl)
+    L0 = length(old.self.subgraph.idx_nodes)
+    mlen = length(ordl) - L0
     rank = v.g_rank
     lab = (lambda x: N[x].cluster_label) if unsup else (lambda x: N[x].predicted_label)
     out = cl_static(v, old, unsup) + [
@@ -84,14 +91,17 @@ def forest_inv(v, old, unsup=False):
             le(0, N[x].root), lt(N[x].root, n),
             implies(disj(eq(col[x], BLACK), ne(N[x].pred, NIL)),
                     conj(eq(col[N[x].root], BLACK), eq(N[N[x].root].pred, NIL), le(D[x], D[N[x].root])))))),
-        ("K6_ord", conj(le(0, mlen), eq(length(rank), n), eq(length(v.g_at), n),
-                        forall(0, mlen, lambda r: conj(le(0, ordl[r]), lt(ordl[r], n), eq(col[ordl[r]], BLACK),
-                                                       eq(rank[ordl[r]], r))),
+        # positions are ABSOLUTE positions in the ever growing conquest-order list (this run owns L0 .. len-1)
+        ("K6_ord", conj(le(0, mlen), ge(L0, 0), eq(length(rank), n), eq(length(v.g_at), n),
+                        forall(L0, length(ordl), lambda a: conj(le(0, ordl[a]), lt(ordl[a], n),
+                                                                eq(col[ordl[a]], BLACK), eq(rank[ordl[a]], a))),
                         forall(0, n, lambda b: implies(eq(col[b], BLACK),
-                                                       conj(le(0, rank[b]), lt(rank[b], mlen),
+                                                       conj(le(L0, rank[b]), lt(rank[b], length(ordl)),
                                                             eq(ordl[rank[b]], b)))))),
         ("K6_rank", forall(0, n, lambda b: implies(conj(eq(col[b], BLACK), ne(N[b].pred, NIL)),
                                                    lt(rank[N[b].pred], rank[b])))),
+        ("K6_older", conj(ge(length(ordl), L0),
+                          forall(0, L0, lambda r: eq(ordl[r], old.self.subgraph.idx_nodes[r])))),
     ]
     if unsup:
         l = v.l
@@ -103,7 +113,9 @@ def forest_inv(v, old, unsup=False):
                                  forall(0, n, lambda r: implies(conj(eq(col[r], BLACK), eq(N[r].pred, NIL)),
                                                                 conj(le(0, N[r].cluster_label), lt(N[r].cluster_label, l),
                                                                      eq(ro[N[r].cluster_label], r)))),
-                                 forall(0, n, lambda x: ge(N[x].cluster_label, 0)))),
+                                 forall(0, n, lambda x: ge(N[x].cluster_label, 0)),
+                                 forall(0, n, lambda x: implies(disj(eq(col[x], BLACK), ne(N[x].pred, NIL)),
+                                                                lt(N[x].cluster_label, l))))),
         ]
     else:
         out += [
@@ -123,7 +135,8 @@ def forest_inner(v, old, unsup=False):
     ordl = sg.idx_nodes
     p = v.p
     return forest_inv(v, old, unsup) + [
-        ("p", conj(le(0, p), lt(p, n), eq(h.color[p], BLACK), ge(length(ordl), 1), eq(ordl[length(ordl) - 1], p))),
+        ("p", conj(le(0, p), lt(p, n), eq(h.color[p], BLACK), ge(length(ordl), 1), eq(ordl[length(ordl) - 1], p),
+                   gt(length(ordl), length(old.self.subgraph.idx_nodes)))),
     ]
 
 
@@ -133,6 +146,7 @@ def forest_post(v, old, unsup=False):
     n = length(sg.nodes)
     N = sg.nodes
     ordl = sg.idx_nodes
+    L0 = length(old.self.subgraph.idx_nodes)
     lab = (lambda x: N[x].cluster_label) if unsup else (lambda x: N[x].predicted_label)
     out = [
         ("n", eq(n, length(old.self.subgraph.nodes))),
@@ -146,11 +160,13 @@ def forest_post(v, old, unsup=False):
         ("root_is_root", forall(0, n, lambda x: conj(le(0, N[x].root), lt(N[x].root, n),
                                                      eq(N[N[x].root].pred, NIL),
                                                      lt(N[x].density - 1, N[N[x].root].density)))),
-        ("acyclic", forall(0, n, lambda r, s: implies(conj(ne(N[ordl[r]].pred, NIL), eq(ordl[s], N[ordl[r]].pred)),
-                                                      lt(s, r)))),
-        ("perm", conj(eq(length(ordl), n),
-                      forall(0, n, lambda r: conj(le(0, ordl[r]), lt(ordl[r], n))),
-                      forall(0, n, lambda r, s: implies(ne(r, s), ne(ordl[r], ordl[s]))))),
+        # the n removals of THIS clustering are the last n entries of the (ever growing) conquest order list
+        ("acyclic", forall(L0, L0 + n, lambda r, s: implies(conj(ne(N[ordl[r]].pred, NIL), eq(ordl[s], N[ordl[r]].pred)),
+                                                            lt(s, r)))),
+        ("perm", conj(eq(length(ordl), L0 + n),
+                      forall(L0, L0 + n, lambda r: conj(le(0, ordl[r]), lt(ordl[r], n))),
+                      forall(L0, L0 + n, lambda r, s: implies(ne(r, s), ne(ordl[r], ordl[s]))))),
+        ("older_order_kept", forall(0, L0, lambda r: eq(ordl[r], old.self.subgraph.idx_nodes[r]))),
         ("density_same", forall(0, n, lambda x: eq(N[x].density, old.self.subgraph.nodes[x].density))),
     ]
     return out
@@ -159,8 +175,7 @@ def forest_post(v, old, unsup=False):
 # ------------------------------------------------------------------ KNNSupervisedOPF._clustering
 
 def knn_sym_inv(v, old, le_):
-    return cl_static(v, old) + [("cost_same", density_ready(v.self.subgraph)),
-                                ("ord_empty", eq(length(v.self.subgraph.idx_nodes), 0))]
+    return cl_static(v, old) + [("cost_same", density_ready(v.self.subgraph)), ord_same(v, old)]
 
 
 def knn_init_inv(v, old, le_):
@@ -174,7 +189,7 @@ def knn_init_inv(v, old, le_):
                                              eq(N[x].pred, NIL), eq(N[x].root, x)))),
         ("todo", forall(i, n, lambda x: eq(h.color[x], WHITE))),
         ("cost_same", density_ready(sg)),
-        ("ord_empty", eq(length(sg.idx_nodes), 0)),
+        ord_same(v, old),
         ("plabel_nonneg", forall(0, n, lambda x: ge(N[x].predicted_label, 0))),
     ]
 
@@ -183,6 +198,7 @@ GHOST_CL = [
     ("after:h = Heap(size=self.subgraph.n_nodes, policy='max')",
      "g_rank = [0 for _ in range(self.subgraph.n_nodes)]\ng_at = [0 for _ in range(self.subgraph.n_nodes)]"),
     ("after:self.subgraph.idx_nodes.append(p)", "g_rank[p] = len(self.subgraph.idx_nodes) - 1"),
+    ("entry", "g_L0 = len(self.subgraph.idx_nodes)"),
 ]
 
 contract(KS + "_clustering", params={"self": "obj:KNNSupervisedOPF", "force_prototype": "bool"},
@@ -196,6 +212,10 @@ contract(KS + "_clustering", params={"self": "obj:KNNSupervisedOPF", "force_prot
                  eq(v.self.subgraph.nodes[x].predicted_label, v.self.subgraph.nodes[x].label)))),
              ("C04_own_label", implies(v.force_prototype, forall(0, length(v.self.subgraph.nodes), lambda x: eq(
                  v.self.subgraph.nodes[x].predicted_label, v.self.subgraph.nodes[x].label)))),
+             ("plabel_nonneg", forall(0, length(v.self.subgraph.nodes),
+                                      lambda x: ge(v.self.subgraph.nodes[x].predicted_label, 0))),
+             ("costs_nonneg", forall(0, length(v.self.subgraph.nodes), lambda x: ge(v.self.subgraph.nodes[x].cost, 0))),
+             ("adj_valid", adj_valid(v.self.subgraph)),
          ],
          modifies=["self.subgraph.nodes.adjacency", "self.subgraph.nodes.pred", "self.subgraph.nodes.root",
                    "self.subgraph.nodes.cost", "self.subgraph.nodes.predicted_label", "self.subgraph.idx_nodes"],
@@ -204,12 +224,13 @@ contract(KS + "_clustering", params={"self": "obj:KNNSupervisedOPF", "force_prot
              ("all_black", forall(0, length(v.self.subgraph.nodes), lambda x: eq(v.h.color[x], BLACK)))])],
          lemmas=[("before:h.cost[i] = self.subgraph.nodes[i].cost", "cost_write", lambda v: {"h": v.h, "x": v.i}),
                  ("before:h.cost[p] = self.subgraph.nodes[p].density", "cost_write", lambda v: {"h": v.h, "x": v.p}),
-                 ("after:loop4", "inj_card", lambda v: {"f": v.self.subgraph.idx_nodes, "g": v.g_rank,
-                                                       "a": length(v.self.subgraph.idx_nodes),
-                                                       "b": length(v.self.subgraph.nodes)}),
-                 ("after:loop4", "inj_card", lambda v: {"f": v.g_rank, "g": v.self.subgraph.idx_nodes,
-                                                       "a": length(v.self.subgraph.nodes),
-                                                       "b": length(v.self.subgraph.idx_nodes)})],
+                 ("after:loop4", "inj_card_off", lambda v: {"f": v.self.subgraph.idx_nodes, "g": v.g_rank,
+                                                           "a": length(v.self.subgraph.idx_nodes) - v.g_L0,
+                                                           "b": length(v.self.subgraph.nodes), "off": v.g_L0}),
+                 ("after:loop4", "inj_card_goff", lambda v: {"f": v.g_rank, "g": v.self.subgraph.idx_nodes,
+                                                            "a": length(v.self.subgraph.nodes),
+                                                            "b": length(v.self.subgraph.idx_nodes) - v.g_L0,
+                                                            "off": v.g_L0})],
          loops=[LoopSpec("for", var="i", inv=knn_sym_inv),
                 LoopSpec("for", var="j", inv=lambda v, old, le_: knn_sym_inv(v, old, le_) + [
                     ("i", conj(le(0, v.i), lt(v.i, length(v.self.subgraph.nodes))))]),
@@ -236,13 +257,15 @@ def un_static(v, old):
     return cl_static(v, old, True) + [
         ("k", conj(ge(v.n_neighbours, 1))),
         ("adj_long", adj_long(sg, v.n_neighbours)),
+        ("adj_balance", forall(0, n, lambda x: eq(length(sg.nodes[x].adjacency) - sg.nodes[x].n_plateaus,
+                                                  length(old.self.subgraph.nodes[x].adjacency)
+                                                  - old.self.subgraph.nodes[x].n_plateaus))),
         ("cluster_nonneg", forall(0, n, lambda x: ge(sg.nodes[x].cluster_label, 0))),
     ]
 
 
 def un_sym_inv(v, old, le_):
-    return un_static(v, old) + [("cost_same", density_ready(v.self.subgraph)),
-                                ("ord_empty", eq(length(v.self.subgraph.idx_nodes), 0))]
+    return un_static(v, old) + [("cost_same", density_ready(v.self.subgraph)), ord_same(v, old)]
 
 
 def un_init_inv(v, old, le_):
@@ -256,7 +279,7 @@ def un_init_inv(v, old, le_):
                                              eq(N[x].pred, NIL), eq(N[x].root, x)))),
         ("todo", forall(i, n, lambda x: eq(h.color[x], WHITE))),
         ("cost_same", density_ready(sg)),
-        ("ord_empty", eq(length(sg.idx_nodes), 0)),
+        ord_same(v, old),
     ]
 
 
@@ -264,6 +287,9 @@ def un_forest(v, old, le_):
     return forest_inv(v, old, True) + [
         ("k", ge(v.n_neighbours, 1)),
         ("adj_long", adj_long(v.self.subgraph, v.n_neighbours)),
+        ("adj_balance", forall(0, length(v.self.subgraph.nodes), lambda x: eq(
+            length(v.self.subgraph.nodes[x].adjacency) - v.self.subgraph.nodes[x].n_plateaus,
+            length(old.self.subgraph.nodes[x].adjacency) - old.self.subgraph.nodes[x].n_plateaus))),
     ]
 
 
@@ -272,6 +298,9 @@ def un_inner(v, old, le_):
     return forest_inner(v, old, True) + [
         ("k", ge(v.n_neighbours, 1)),
         ("adj_long", adj_long(sg, v.n_neighbours)),
+        ("adj_balance", forall(0, length(sg.nodes), lambda x: eq(
+            length(sg.nodes[x].adjacency) - sg.nodes[x].n_plateaus,
+            length(old.self.subgraph.nodes[x].adjacency) - old.self.subgraph.nodes[x].n_plateaus))),
         ("n_adjacents", eq(v.n_adjacents, sg.nodes[v.p].n_plateaus + v.n_neighbours)),
     ]
 
@@ -293,6 +322,14 @@ def clusters_post(v, old):
         ("cluster_ids_distinct", forall(0, n, lambda r, s: implies(conj(eq(N[r].pred, NIL), eq(N[s].pred, NIL), ne(r, s)),
                                                                    ne(N[r].cluster_label, N[s].cluster_label)))),
         ("cluster_ids_onto", onto),
+        ("every_sample_in_a_cluster", forall(0, n, lambda x: conj(le(0, N[x].cluster_label), lt(N[x].cluster_label, nc)))),
+        ("n_clusters_le_n", conj(ge(nc, 0), le(nc, n))),
+        ("lists_long_enough", adj_long(sg, v.n_neighbours)),
+        ("adj_balance", forall(0, n, lambda x: eq(length(N[x].adjacency) - N[x].n_plateaus,
+                                                  length(old.self.subgraph.nodes[x].adjacency)
+                                                  - old.self.subgraph.nodes[x].n_plateaus))),
+        ("adj_valid", adj_valid(sg)),
+        ("costs_nonneg", forall(0, n, lambda x: ge(N[x].cost, 0))),
     ]
 
 
@@ -316,12 +353,15 @@ contract(US + "_clustering", params={"self": "obj:UnsupervisedOPF", "n_neighbour
              ("all_black", forall(0, length(v.self.subgraph.nodes), lambda x: eq(v.h.color[x], BLACK)))])],
          lemmas=[("before:h.cost[i] = self.subgraph.nodes[i].cost", "cost_write", lambda v: {"h": v.h, "x": v.i}),
                  ("before:h.cost[p] = self.subgraph.nodes[p].density", "cost_write", lambda v: {"h": v.h, "x": v.p}),
-                 ("after:loop4", "inj_card", lambda v: {"f": v.self.subgraph.idx_nodes, "g": v.g_rank,
-                                                       "a": length(v.self.subgraph.idx_nodes),
-                                                       "b": length(v.self.subgraph.nodes)}),
-                 ("after:loop4", "inj_card", lambda v: {"f": v.g_rank, "g": v.self.subgraph.idx_nodes,
-                                                       "a": length(v.self.subgraph.nodes),
-                                                       "b": length(v.self.subgraph.idx_nodes)})],
+                 ("after:loop4", "inj_card", lambda v: {"f": v.g_rootof, "g": v.self.subgraph.nodes.field("cluster_label"),
+                                                       "a": v.l, "b": length(v.self.subgraph.nodes)}),
+                 ("after:loop4", "inj_card_off", lambda v: {"f": v.self.subgraph.idx_nodes, "g": v.g_rank,
+                                                           "a": length(v.self.subgraph.idx_nodes) - v.g_L0,
+                                                           "b": length(v.self.subgraph.nodes), "off": v.g_L0}),
+                 ("after:loop4", "inj_card_goff", lambda v: {"f": v.g_rank, "g": v.self.subgraph.idx_nodes,
+                                                            "a": length(v.self.subgraph.nodes),
+                                                            "b": length(v.self.subgraph.idx_nodes) - v.g_L0,
+                                                            "off": v.g_L0})],
          loops=[LoopSpec("for", var="i", inv=un_sym_inv),
                 LoopSpec("for", var="k", inv=lambda v, old, le_: un_sym_inv(v, old, le_) + [
                     ("i", conj(le(0, v.i), lt(v.i, length(v.self.subgraph.nodes))))]),
@@ -352,3 +392,36 @@ contract(US + "propagate_labels", params={"self": "obj:UnsupervisedOPF"}, props=
              ("done", forall(0, v.i, lambda x: eq(
                  v.self.subgraph.nodes[x].predicted_label,
                  v.self.subgraph.nodes[v.self.subgraph.nodes[x].root].label)))])])
+
+
+# ------------------------------------------------------------------ C13's statement on the final state of a model
+
+def forest_post_after(v, unsup):
+    """the well-formedness clauses of C13 over the model's final node fields (no reference to a pre-state)"""
+    sg = v.self.subgraph
+    n = length(sg.nodes)
+    N = sg.nodes
+    lab = (lambda x: N[x].cluster_label) if unsup else (lambda x: N[x].predicted_label)
+    return [
+        ("C13_roots", forall(0, n, lambda x: implies(eq(N[x].pred, NIL), conj(eq(N[x].cost, N[x].density), eq(N[x].root, x))))),
+        ("C13_links", forall(0, n, lambda x: implies(ne(N[x].pred, NIL), conj(
+            le(0, N[x].pred), lt(N[x].pred, n), ne(N[x].pred, x),
+            eq(N[x].cost, vmin(N[N[x].pred].cost, N[x].density)), gt(N[x].cost, N[x].density - 1),
+            eq(N[x].root, N[N[x].pred].root), eq(lab(x), lab(N[x].pred)))))),
+        ("C13_root_is_root", forall(0, n, lambda x: conj(le(0, N[x].root), lt(N[x].root, n), eq(N[N[x].root].pred, NIL),
+                                                         lt(N[x].density - 1, N[N[x].root].density)))),
+    ]
+
+
+def clusters_post_after(v):
+    sg = v.self.subgraph
+    n = length(sg.nodes)
+    N = sg.nodes
+    nc = sg.n_clusters
+    ro = v.ghost("g_rootof_final", "list[int]")
+    return [
+        ("C13_cluster_ids_in_range", forall(0, n, lambda r: implies(eq(N[r].pred, NIL), conj(le(0, N[r].cluster_label),
+                                                                                             lt(N[r].cluster_label, nc))))),
+        ("C13_cluster_ids_distinct", forall(0, n, lambda r, s: implies(conj(eq(N[r].pred, NIL), eq(N[s].pred, NIL), ne(r, s)),
+                                                                       ne(N[r].cluster_label, N[s].cluster_label)))),
+    ]
